@@ -19,7 +19,7 @@ def run(tier, seed):
     wd = vlib.workdir(PID)
     exe = vlib.build_harness("dbg")
     states = trans = 0
-    plan = [dict(depth=3)] if tier == "quick" else [dict(depth=4), dict(depth=9, simulate=3000)]
+    plan = [dict(depth=3)] if tier == "quick" else [dict(depth=3), dict(depth=4), dict(depth=9, simulate=3000)]
     hists = []
     for i, p in enumerate(plan):
         env = {"GEN_DEPTH": p["depth"], "GEN_PICK": "random" if p.get("simulate") else "all"}
@@ -27,7 +27,10 @@ def run(tier, seed):
                          depth=p["depth"] + 3 if p.get("simulate") else None, seed=seed % 100000, tag="Gen_Coin_%d" % i, xmx="6g")
         if r.violation:
             v.violation("model/" + str(r.violation), "Coin.tla: %s violated" % r.violation, {"tlc": r.out[-3000:]})
-        hists += [x for x in r.printed if "hist" in x]
+        hs = [x for x in r.printed if "hist" in x]
+        if p["depth"] >= 4 and not p.get("simulate"):
+            hs = sorted(hs, key=lambda x: json.dumps(x, sort_keys=True))[::3]   # depth 4: every third history (depth 3 is exhaustive)
+        hists += hs
         states += r.distinct
         trans += r.generated
         log("[gen] Gen_Coin depth=%d %s: %d histories, %d states, %.1fs" % (p["depth"], "sim" if p.get("simulate") else "exhaustive", len(r.printed), r.distinct, r.wall))
@@ -42,7 +45,7 @@ def run(tier, seed):
         v.violation(f["key"], f["what"] + " (%d occurrences)" % f["count"], f["replay"])
 
     def validate(f):
-        return f, vlib.tlc_validate("Trace_Coin", "Trace_Coin", f["path"], tag="Trace_Coin_" + f["hasher"], timeout=3000, xmx="4g")
+        return f, vlib.tlc_validate("Trace_Coin", "Trace_Coin", f["path"], tag="Trace_Coin_" + f["hasher"], timeout=6000, xmx="4g")
 
     accepted = 0
     events = 0
